@@ -297,7 +297,7 @@ func (w *world) step() {
 		if err != nil || !bytes.Equal(got, want) && !(len(got) == 0 && len(want) == 0) {
 			w.fail("overlaydb-get-mismatch", fmt.Sprintf("OverlayDB.Get(%x) = (%x, %v), model says %x", k, got, err, want))
 		}
-	case c < 76: // tx-layer prefix scan
+	case c < 72: // tx-layer prefix scan
 		p := w.scanPrefix()
 		w.log("cache.NewIterator", p, nil)
 		full := append([]byte{stStorage}, p...)
@@ -314,7 +314,7 @@ func (w *world) step() {
 		} else if d := diffKV(got, want); d != "" {
 			w.fail("cachedb-scan-mismatch", fmt.Sprintf("CacheDB.NewIterator(%x): %s", p, d))
 		}
-	case c < 84: // block-layer prefix scan
+	case c < 78: // block-layer prefix scan
 		var p []byte
 		switch rng.Intn(4) {
 		case 0:
@@ -338,6 +338,8 @@ func (w *world) step() {
 		} else if d := diffKV(got, want); d != "" {
 			w.fail("overlaydb-scan-mismatch", fmt.Sprintf("OverlayDB.NewIterator(%x): %s", p, d))
 		}
+	case c < 84: // several live iterators stepped alternately, reads between creation and use
+		w.interleavedScans()
 	case c < 90: // commit the tx layer into the block layer
 		w.log("cache.Commit", nil, nil)
 		w.cache.Commit()
@@ -384,6 +386,146 @@ func (w *world) step() {
 		w.ov = layer{}
 		r.Count("op_overlay_reset", 1)
 		w.checkOverlayWriteSet("after OverlayDB.Reset")
+	}
+}
+
+// liveIter = an open prefix iterator of one of the views with the list the model expects from it
+type liveIter struct {
+	it      scommon.StoreIterator
+	want    []kv
+	pos     int // number of entries consumed
+	started bool
+	done    bool
+	desc    string
+	failKey string
+}
+
+// interleavedScans opens 1..3 prefix iterators on the tx view / block view and consumes them in an
+// interleaved order, with READS (CacheDB.Get / OverlayDB.Get, no layer is mutated) and further
+// iterator creations placed between an iterator's creation, its First() and its Next() calls.
+// Nothing here changes any layer, so every iterator must still yield exactly the model's list.
+func (w *world) interleavedScans() {
+	rng, r := w.rng, w.r
+	var its []*liveIter
+	open := func() {
+		if rng.Intn(3) != 0 {
+			p := w.scanPrefix()
+			full := append([]byte{stStorage}, p...)
+			want := w.liveUnder(full, w.visCache, w.ca, w.ov, w.base)
+			for i := range want {
+				want[i].k = want[i].k[1:]
+			}
+			w.log("cache.NewIterator(kept open)", p, nil)
+			its = append(its, &liveIter{it: w.cache.NewIterator(append([]byte{}, p...)), want: want, desc: fmt.Sprintf("CacheDB.NewIterator(%x)", p), failKey: "cachedb-interleaved-scan-mismatch"})
+			w.classify(full, w.ca, w.visOverlay, w.ov, w.base)
+		} else {
+			p := w.fullKey(false)
+			p = p[:1+rng.Intn(len(p))]
+			want := w.liveUnder(p, w.visOverlay, w.ov, w.base)
+			w.log("overlay.NewIterator(kept open)", p, nil)
+			its = append(its, &liveIter{it: w.overlay.NewIterator(append([]byte{}, p...)), want: want, desc: fmt.Sprintf("OverlayDB.NewIterator(%x)", p), failKey: "overlaydb-interleaved-scan-mismatch"})
+		}
+		r.Count("iterators_kept_open", 1)
+	}
+	defer func() {
+		for _, li := range its {
+			li.it.Release()
+		}
+	}()
+	read := func() {
+		if rng.Intn(3) != 0 {
+			k := w.fullKey(true)
+			if rng.Intn(3) == 0 {
+				k = append([]byte{stStorage}, w.rest()...)
+			}
+			w.log("cache.Get", k[1:], nil)
+			got, err := w.cache.Get(append([]byte{}, k[1:]...))
+			want := w.visCache(string(k))
+			if err != nil || !bytes.Equal(got, want) && !(len(got) == 0 && len(want) == 0) {
+				w.fail("cachedb-get-mismatch", fmt.Sprintf("CacheDB.Get(%x) = (%x, %v), model says %x", k[1:], got, err, want))
+			}
+		} else {
+			k := w.fullKey(false)
+			w.log("overlay.Get", k, nil)
+			got, err := w.overlay.Get(append([]byte{}, k...))
+			want := w.visOverlay(string(k))
+			if err != nil || !bytes.Equal(got, want) && !(len(got) == 0 && len(want) == 0) {
+				w.fail("overlaydb-get-mismatch", fmt.Sprintf("OverlayDB.Get(%x) = (%x, %v), model says %x", k, got, err, want))
+			}
+		}
+		for _, li := range its {
+			if li.done {
+				continue
+			}
+			if !li.started {
+				r.Count("reads_between_iterator_creation_and_first", 1)
+			} else {
+				r.Count("reads_between_iterator_steps", 1)
+			}
+		}
+	}
+	n := 1 + rng.Intn(3)
+	open()
+	r.Count("op_interleaved_scans", 1)
+	for guard := 0; guard < 400 && !w.bad; guard++ {
+		var pending []*liveIter
+		for _, li := range its {
+			if !li.done {
+				pending = append(pending, li)
+			}
+		}
+		if len(pending) == 0 && len(its) >= n {
+			break
+		}
+		c := rng.Intn(10)
+		switch {
+		case len(its) < n && (c < 2 || len(pending) == 0):
+			for _, li := range pending {
+				if !li.started {
+					r.Count("iterator_created_before_another_was_started", 1)
+				}
+			}
+			if len(pending) > 0 {
+				r.Count("iterators_live_together", 1)
+			}
+			open()
+		case c < 5:
+			read()
+		default:
+			li := pending[rng.Intn(len(pending))]
+			var ok bool
+			if !li.started {
+				w.log("First of "+li.desc, nil, nil)
+				ok = li.it.First()
+				li.started = true
+			} else {
+				w.log("Next of "+li.desc, nil, nil)
+				ok = li.it.Next()
+			}
+			if len(pending) > 1 {
+				r.Count("interleaved_iterator_steps", 1)
+			}
+			if li.pos >= len(li.want) {
+				li.done = true
+				if ok {
+					w.fail(li.failKey, fmt.Sprintf("%s: extra entry #%d key %x value %x (model has %d entries)", li.desc, li.pos, li.it.Key(), li.it.Value(), len(li.want)))
+				} else if err := li.it.Error(); err != nil {
+					w.fail(li.failKey, fmt.Sprintf("%s: iterator error %v", li.desc, err))
+				}
+				continue
+			}
+			e := li.want[li.pos]
+			if !ok {
+				w.fail(li.failKey, fmt.Sprintf("%s: ended after %d entries, model expects #%d key %x (of %d)", li.desc, li.pos, li.pos, e.k, len(li.want)))
+				continue
+			}
+			if string(li.it.Key()) != e.k || !bytes.Equal(li.it.Value(), e.v) {
+				w.fail(li.failKey, fmt.Sprintf("%s: entry #%d is (%x,%x), model expects (%x,%x)", li.desc, li.pos, li.it.Key(), li.it.Value(), e.k, e.v))
+				continue
+			}
+			li.pos++
+			r.Count("scan_entries", 1)
+		}
 	}
 }
 
@@ -528,9 +670,9 @@ func TestC10(t *testing.T) {
 		r.Inconclusive("ST_STORAGE changed")
 		return
 	}
-	r.Rule("per script: an in-memory LevelDB (fresh every 100 scripts, wiped through its API in between) with 0..20 random persisted keys (prefixes 04/05/06, rest of length 0..3 over {00,'a','b',ff}), an OverlayDB and a CacheDB on top; 25..75 random operations: CacheDB Put/Delete/Get/NewIterator(prefix)/Commit/Reset, OverlayDB Put/Delete/Get/NewIterator(prefix)/CommitTo+BatchCommit/Reset, keys biased towards keys already present in some layer; after every commit the layer below is dumped and compared with the model (block layer write set, store contents); every read and every scan is compared with the three-map model; distinct = (trace length, sizes of the three model layers, initial store size)")
+	r.Rule("per script: an in-memory LevelDB (fresh every 100 scripts, wiped through its API in between) with 0..20 random persisted keys (prefixes 04/05/06, rest of length 0..3 over {00,'a','b',ff}), an OverlayDB and a CacheDB on top; 25..75 random operations: CacheDB Put/Delete/Get/NewIterator(prefix)/Commit/Reset, OverlayDB Put/Delete/Get/NewIterator(prefix)/CommitTo+BatchCommit/Reset, interleaved scans (1..3 iterators of either view kept open and stepped alternately, with Gets and further iterator creations between NewIterator, First and Next), keys biased towards keys already present in some layer; after every commit the layer below is dumped and compared with the model (block layer write set, store contents); every read and every scan is compared with the three-map model; distinct = (trace length, sizes of the three model layers, initial store size)")
 	r.Assume("the backing store never holds empty values (OverlayDB.CommitTo turns empty values into deletions, so poly never persists one); an empty value written at a layer reads as absent")
-	r.Assume("iterators are started with First() (as every caller in poly does) and the layers are not mutated while an iterator is open")
+	r.Assume("iterators are started with First() (as every caller in poly does) and the layers are not mutated while an iterator is open; reads (Get) and the creation / use of other iterators are not mutations and are interleaved freely between NewIterator, First and Next")
 	r.Assume("goleveldb's in-memory storage behaves like the on-disk one for Get/Put/Delete/Write/iterators")
 	rng := r.Rand("c10")
 	n := r.N(2500, 100000)
@@ -552,7 +694,8 @@ func TestC10(t *testing.T) {
 	for _, c := range []string{"op_cache_put", "op_cache_delete", "op_cache_get", "op_overlay_put", "op_overlay_delete", "op_overlay_get", "op_cache_scan", "op_overlay_scan",
 		"op_cache_commit", "op_cache_reset", "op_overlay_commit", "op_overlay_reset", "read_absent", "read_present",
 		"join_deleted_in_mem_live_in_backend", "join_deleted_in_mem_absent_in_backend", "join_overwritten_in_mem", "join_mem_only", "join_backend_only",
-		"join_empty_mem_side", "join_empty_backend_side", "join_both_sides_empty"} {
+		"join_empty_mem_side", "join_empty_backend_side", "join_both_sides_empty",
+		"op_interleaved_scans", "reads_between_iterator_creation_and_first", "reads_between_iterator_steps", "iterators_live_together", "iterator_created_before_another_was_started", "interleaved_iterator_steps"} {
 		r.Require(c, n/4)
 	}
 	r.Require("scan_entries", n)
